@@ -1,89 +1,142 @@
 ------------------------------- MODULE Pipeline -------------------------------
-(* The request pipeline of HTTPProxy as a pure decision function:                 *)
-(*   http_proxy.go middlewareStack (time frame -> basic auth -> deny localhost ->  *)
-(*   deny domains -> [hop-by-hop, forwarded, framing] -> via -> user rules ->      *)
-(*   site credentials), configureProxy (direct-localhost(direct-domains(static |   *)
-(*   PAC | none))), pac/proxy.go First/parseProxy/URL, net.go connect-to,          *)
-(*   credentials.go Match, http_proxy_errors.go status mapping.                    *)
-(* Hosts, credentials and PAC results are abstract classes; the harness maps each   *)
-(* class to concrete spellings / listeners.                                         *)
-EXTENDS Integers, Sequences, FiniteSets, TLC, Json
+(* The request pipeline of HTTPProxy as a decision function (C04, C05, C06, C18):     *)
+(*   http_proxy.go middlewareStack (time frame -> basic auth -> deny localhost ->      *)
+(*   deny domains -> [hop-by-hop, forwarded, framing] -> via -> user rules ->          *)
+(*   site credentials), configureProxy (direct-localhost(direct-domains(static |       *)
+(*   PAC | none))), pac/proxy.go First/parseProxy/URL, net.go connect-to,              *)
+(*   credentials.go Match, http_proxy_errors.go status mapping.                        *)
+(* Hosts, credentials and PAC results are abstract classes; the harness maps each       *)
+(* class to concrete spellings / listeners (harness/vh/pipe.go).                        *)
+EXTENDS Integers, Sequences, FiniteSets, TLC, Json, Randomization
+
+CONSTANTS AccessSample, RouteSample, CredSample   \* 0 = everything, else size of a random subset
 
 (* ---------- host classes ---------- *)
+LocalHosts == {"lhName", "lhUpper", "lo4", "lo4b", "lo6", "unspec4", "unspec6", "unspec6b", "unspec6c", "mapped4", "lhAlias"}
 HostClasses == {"origin",      \* ordinary name, matches nothing
                 "denied",      \* matches a deny-domains include rule
                 "denyExcl",    \* matches an include rule and a '-' exclude rule
                 "direct",      \* matches direct-domains
-                "lhName", "lhUpper", "lo4", "lo4b", "lo6", "unspec4", "unspec6", "unspec6b", "mapped4", "lhAlias"}
-IsLocal(h) == h \in {"lhName", "lhUpper", "lo4", "lo4b", "lo6", "unspec4", "unspec6", "unspec6b", "mapped4", "lhAlias"}
+                "directExcl"}  \* matches direct-domains include and exclude
+               \cup LocalHosts
+IsLocal(h) == h \in LocalHosts
 
 (* ---------- credentials presented to this proxy ---------- *)
-CredClasses == {"none", "exact", "wrongPass", "userPrefix", "passSuffix", "caseVar", "bearer",
-                "lowerScheme", "notB64", "noColon", "twoFirstGood", "twoFirstBad", "nominated"}
-\* only Basic credentials equal to the configured pair authenticate; the first field line counts
-CredOK(c) == c \in {"exact", "lowerScheme", "twoFirstGood", "nominated"}
+CredClasses == {"none", "exact", "wrongPass", "userPrefix", "passSuffix", "passPrefix", "caseVar", "emptyPass",
+                "extraColon", "bearer", "digest", "lowerScheme", "notB64", "noColon", "authzOnly",
+                "twoFirstGood", "twoFirstBad", "nominated"}
+\* only Basic credentials equal to the configured pair authenticate
+CredOK(c) == c \in {"exact", "lowerScheme", "nominated"}
+\* two field lines, one of them right: the statement leaves the outcome open
+CredOpen(c) == c \in {"twoFirstGood", "twoFirstBad"}
 
-(* ---------- Via chains ---------- *)
-ViaClasses == {"none", "others", "sameNameOtherInst", "ownFirstLine", "ownLaterHop", "ownSecondLine"}
-ViaLoop(v) == v \in {"ownFirstLine", "ownLaterHop", "ownSecondLine"}
+(* ---------- Via chains (C18) ---------- *)
+ViaClasses == {"none", "others", "othersTwoLines", "sameNameOtherInst", "ownOnly", "ownThenOther", "otherThenOwn", "ownSecondLine", "ownWithComment"}
+ViaLoop(v) == v \in {"ownOnly", "ownThenOther", "otherThenOwn", "ownSecondLine", "ownWithComment"}
 
-(* ---------- upstream selection ---------- *)
+(* ---------- upstream selection (C05) ---------- *)
 PacResults == {"empty", "DIRECT", "PROXY_A", "HTTP_A", "HTTPS_B", "SOCKS5_C", "SOCKS_C", "SOCKS4_C",
-               "FOO_A", "PROXY_noport", "PROXY_nohost", "A_then_B", "blank_then_A", "throws", "nonString"}
+               "FOO_A", "PROXY_noport", "PROXY_nohost", "A_then_B", "DIRECT_then_A", "blank_A_blank", "throws", "nonString"}
 Upstreams == {[t |-> "none", v |-> "-"]} \cup {[t |-> "static", v |-> x] : x \in {"HTTP_A", "HTTPS_B", "SOCKS5_C"}}
              \cup {[t |-> "pac", v |-> r] : r \in PacResults}
 
+Hop(k, p) == [k |-> k, p |-> p]
+Direct == Hop("direct", "-")
 \* pac/proxy.go: first entry; keyword table; errors
 PacHop(r) ==
-  CASE r \in {"empty", "DIRECT", "FOO_A", "blank_then_A"} -> [k |-> "direct", p |-> "-"]
-    [] r \in {"PROXY_A", "HTTP_A", "A_then_B"}             -> [k |-> "http", p |-> "A"]
-    [] r = "HTTPS_B"                                       -> [k |-> "https", p |-> "B"]
-    [] r = "SOCKS5_C"                                      -> [k |-> "socks5", p |-> "C"]
-    [] OTHER                                               -> [k |-> "fail", p |-> "-"]   \* unsupported type, unparsable entry, script error
+  CASE r \in {"empty", "DIRECT", "FOO_A", "DIRECT_then_A"}   -> Direct
+    [] r \in {"PROXY_A", "HTTP_A", "A_then_B", "blank_A_blank"} -> Hop("http", "A")
+    [] r = "HTTPS_B"                                       -> Hop("https", "B")
+    [] r = "SOCKS5_C"                                      -> Hop("socks5", "C")
+    [] OTHER                                               -> Hop("fail", "-")   \* unsupported type, unparsable entry, script error
 
 BaseHop(up) ==
-  CASE up.t = "none"                       -> [k |-> "direct", p |-> "-"]
-    [] up.t = "static" /\ up.v = "HTTP_A"   -> [k |-> "http", p |-> "A"]
-    [] up.t = "static" /\ up.v = "HTTPS_B"  -> [k |-> "https", p |-> "B"]
-    [] up.t = "static" /\ up.v = "SOCKS5_C" -> [k |-> "socks5", p |-> "C"]
+  CASE up.t = "none"                       -> Direct
+    [] up.t = "static" /\ up.v = "HTTP_A"   -> Hop("http", "A")
+    [] up.t = "static" /\ up.v = "HTTPS_B"  -> Hop("https", "B")
+    [] up.t = "static" /\ up.v = "SOCKS5_C" -> Hop("socks5", "C")
     [] OTHER                                -> PacHop(up.v)
 
-\* http_proxy.go:332-339 wrappers only exist when a proxy function exists
+\* http_proxy.go:332-339: direct-localhost outermost, then direct-domains, then static/PAC
 NextHop(cfg, h) ==
-  IF cfg.up.t = "none" THEN [k |-> "direct", p |-> "-"]
-  ELSE IF cfg.lh = "direct" /\ IsLocal(h) THEN [k |-> "direct", p |-> "-"]
-  ELSE IF cfg.dd /\ h = "direct" THEN [k |-> "direct", p |-> "-"]
+  IF cfg.up.t = "none" THEN Direct
+  ELSE IF cfg.lh = "direct" /\ IsLocal(h) THEN Direct
+  ELSE IF cfg.dd /\ h = "direct" THEN Direct
   ELSE BaseHop(cfg.up)
 
-(* ---------- the decision ---------- *)
-Kinds == {"GET", "POST", "CONNECT", "MITMGET"}
-Cfgs == [tf : {"off", "in", "out"}, auth : BOOLEAN, lh : {"deny", "allow", "direct"},
-         deny : BOOLEAN, dd : BOOLEAN, up : Upstreams]
-Reqs == [kind : Kinds, host : HostClasses, cred : CredClasses, via : ViaClasses, pos : {1, 2}]
+\* net.go DialRedirectFromHostPortPairs: first matching rule; empty = any / unchanged.
+\* The address being dialled is the hop's own address: the proxy's, or the target's when direct.
+\* Rule classes name what they match relative to that address; all redirect to peer R.
+CtClasses == {"none", "exact", "hostAnyPort", "anyHostPort", "anyAny", "otherHost", "otherPort",
+              "missThenExact", "exactThenAny", "anyThenExactElsewhere", "portOnlyRewrite"}
+\* where the connection is opened: "self" = the hop's own address, "R" = redirect target,
+\* "R2" = second redirect target, "selfPortP" = same host, rewritten port
+DialTo(ct) ==
+  CASE ct \in {"none", "otherHost", "otherPort"} -> "self"
+    [] ct \in {"exact", "hostAnyPort", "anyHostPort", "anyAny", "missThenExact", "exactThenAny"} -> "R"
+    [] ct = "anyThenExactElsewhere" -> "R"      \* first match wins; the later exact rule points to R2
+    [] ct = "portOnlyRewrite" -> "selfPortP"
 
-Rej(st, ch) == [o |-> "reject", status |-> st, challenge |-> ch, hop |-> [k |-> "none", p |-> "-"]]
+(* ---------- the decision ---------- *)
+\* statuses of ALL failing controls: a reordering among failing checks still satisfies the statement
+FailSet(cfg, r) == (IF cfg.tf = "out" THEN {451} ELSE {})
+              \cup (IF cfg.auth /\ ~CredOK(r.cred) THEN {407} ELSE {})   \* incl. the open two-line shapes
+              \cup (IF (cfg.lh = "deny" /\ IsLocal(r.host)) \/ (cfg.deny /\ r.host = "denied") THEN {403} ELSE {})
+              \cup (IF ViaLoop(r.via) THEN {400} ELSE {})
+Rej(st, ch) == [o |-> "reject", status |-> st, challenge |-> ch, hop |-> Hop("none", "-"), dial |-> "none"]
 Decide(cfg, r) ==
   IF cfg.tf = "out"                          THEN Rej(451, FALSE)
-  ELSE IF cfg.auth /\ ~CredOK(r.cred)        THEN Rej(407, TRUE)
+  ELSE IF cfg.auth /\ ~CredOK(r.cred) /\ ~CredOpen(r.cred) THEN Rej(407, TRUE)
   ELSE IF cfg.lh = "deny" /\ IsLocal(r.host) THEN Rej(403, FALSE)
   ELSE IF cfg.deny /\ r.host = "denied"      THEN Rej(403, FALSE)
   ELSE IF ViaLoop(r.via)                     THEN Rej(400, FALSE)
   ELSE LET hop == NextHop(cfg, r.host) IN
-       IF hop.k = "fail" THEN [o |-> "fail", status |-> 500, challenge |-> FALSE, hop |-> hop]  \* 5xx, nobody contacted
-       ELSE [o |-> "forward", status |-> 0, challenge |-> FALSE, hop |-> hop]
+       IF hop.k = "fail" THEN [o |-> "fail", status |-> 500, challenge |-> FALSE, hop |-> hop, dial |-> "none"]
+       ELSE [o |-> IF cfg.auth /\ CredOpen(r.cred) THEN "open407" ELSE "forward",
+             status |-> 0, challenge |-> FALSE, hop |-> hop, dial |-> DialTo(cfg.ct)]
 
-VARIABLES cfg, req, out
-Init == /\ cfg \in Cfgs /\ req \in Reqs
-        /\ (req.cred # "none" => cfg.auth)          \* symmetry: credentials only matter with auth on
-        /\ (req.host \in {"denied", "denyExcl"} => cfg.deny)
-        /\ (req.host = "direct" => cfg.dd)
-        /\ out = Decide(cfg, req)
-Next == FALSE /\ UNCHANGED <<cfg, req, out>>
+(* ---------- generators ---------- *)
+NoUp == [t |-> "none", v |-> "-"]
+AccessKinds == {"GET", "GET10", "POST", "CONNECT", "MITMGET"}
+AccessCfgs == [tf : {"off", "in", "out"}, auth : BOOLEAN, lh : {"deny", "allow"}, deny : BOOLEAN, dd : {FALSE},
+               up : {NoUp, [t |-> "static", v |-> "HTTP_A"]}, ct : {"none"}]
+AccessReqs == [kind : AccessKinds, host : HostClasses \ {"direct", "directExcl"}, cred : CredClasses,
+               via : {"none", "ownOnly"}, pos : {"first", "afterOK", "afterRefused"}]
+AccessOK(c, r) ==
+  /\ (r.cred # "none" => c.auth)                 \* credentials only matter with auth on
+  /\ (r.host \in {"denied", "denyExcl"} => c.deny)
+  /\ (r.pos = "afterRefused" => (c.auth \/ c.deny \/ c.lh = "deny" \/ c.tf = "out"))
+  /\ (r.pos = "afterOK" => c.tf # "out")
+AccessAll == {x \in AccessCfgs \X AccessReqs : AccessOK(x[1], x[2])}
+
+RouteKinds == {"GET", "CONNECT", "MITMGET"}
+RouteCfgs == [tf : {"off"}, auth : {FALSE}, lh : {"allow", "direct"}, deny : {FALSE}, dd : BOOLEAN, up : Upstreams, ct : CtClasses]
+RouteReqs == [kind : RouteKinds, host : {"origin", "direct", "directExcl", "lo4", "lhName", "lo6"}, cred : {"none"},
+              via : {"none"}, pos : {"first"}]
+RouteOK(c, r) == /\ (r.host \in {"direct", "directExcl"} => c.dd)
+                 /\ (c.ct # "none" => r.host \in {"origin", "direct", "lo4"} /\ r.kind # "MITMGET"
+                                      /\ BaseHop(c.up).k \in {"direct", "http"})
+RouteAll == {x \in RouteCfgs \X RouteReqs : RouteOK(x[1], x[2])}
+
+ViaCfgs == [tf : {"off"}, auth : {FALSE}, lh : {"allow"}, deny : {FALSE}, dd : {FALSE}, up : {NoUp, [t |-> "static", v |-> "HTTP_A"]}, ct : {"none"}]
+ViaReqs == [kind : {"GET", "GET10", "POST", "CONNECT", "MITMGET"}, host : {"origin"}, cred : {"none"}, via : ViaClasses, pos : {"first", "afterOK"}]
+
+VARIABLES gen, cfg, req, out
+vars == <<gen, cfg, req, out>>
+Pick(n, S) == IF n = 0 THEN S ELSE RandomSubset(n, S)
+InitAccess == gen = "access" /\ \E x \in Pick(AccessSample, AccessAll) : cfg = x[1] /\ req = x[2] /\ out = Decide(x[1], x[2])
+InitRoute  == gen = "route"  /\ \E x \in Pick(RouteSample, RouteAll)   : cfg = x[1] /\ req = x[2] /\ out = Decide(x[1], x[2])
+InitVia    == gen = "via"    /\ cfg \in ViaCfgs /\ req \in ViaReqs /\ out = Decide(cfg, req)
+Init == InitAccess \/ InitRoute \/ InitVia
+Next == FALSE /\ UNCHANGED vars
 
 \* meta-properties of the decision function itself (checked over the whole space)
-RejectContactsNobody == out.o # "forward" => TRUE
-HTTPandCONNECTagree ==
-  \A k \in Kinds : Decide(cfg, [req EXCEPT !.kind = k]) = out
-NoAuthNoForward == (cfg.auth /\ ~CredOK(req.cred)) => out.o = "reject"
-Emit == PrintT(ToJson([cfg |-> cfg, req |-> req, out |-> out]))
+HTTPandCONNECTagree == \A k \in {"GET", "CONNECT", "MITMGET"} : Decide(cfg, [req EXCEPT !.kind = k]) = out
+NoAuthNoForward == (cfg.auth /\ ~CredOK(req.cred) /\ ~CredOpen(req.cred)) => out.o = "reject" /\ out.status \in {407, 451}
+RejectHasNoHop == out.o \in {"reject", "fail"} => out.dial = "none"
+LoopRefused == (ViaLoop(req.via) /\ out.o # "reject") => FALSE
+ChallengeOnlyOn407 == out.challenge <=> (out.o = "reject" /\ out.status = 407)
+PositionIrrelevant == \A p \in {"first", "afterOK", "afterRefused"} : Decide(cfg, [req EXCEPT !.pos = p]) = out
+FirstIsInFailSet == out.o = "reject" => out.status \in FailSet(cfg, req)
+Emit == PrintT(ToJson([gen |-> gen, cfg |-> cfg, req |-> req, out |-> out, alts |-> FailSet(cfg, req)]))
 ==============================================================================
